@@ -456,8 +456,9 @@ func c12GenRA(t *rapid.T, theirs bool, pool []string) vRA {
 		O:         rapid.Bool().Draw(t, "o"),
 		Pref:      rapid.SampledFrom([]int{0, 1, 3}).Draw(t, "pref"),
 		LifeS:     rapid.SampledFrom([]int64{0, 1800, 9000}).Draw(t, "life"),
-		ReachMS:   rapid.SampledFrom([]int64{0, 0, 1000, 30000}).Draw(t, "reach"),
-		RetransMS: rapid.SampledFrom([]int64{0, 0, 1000, 5000}).Draw(t, "retrans"),
+		// the two timers travel in milliseconds: values within one second of each other, sub-second and large ones
+		ReachMS:   rapid.SampledFrom([]int64{0, 0, 1000, 30000, 1200, 1800, 250, 3600000}).Draw(t, "reach"),
+		RetransMS: rapid.SampledFrom([]int64{0, 0, 1000, 5000, 1001, 1999, 500, 1}).Draw(t, "retrans"),
 	}
 	kinds := []string{"prefix", "prefix", "route", "route", "rdnss", "rdnss", "dnssl", "dnssl", "mtu", "cp", "lla", "pref64"}
 	if theirs {
@@ -532,9 +533,9 @@ func c12Gen(t *rapid.T) c12Case {
 			case 2:
 				theirs.O = !theirs.O
 			case 3:
-				theirs.ReachMS = rapid.SampledFrom([]int64{0, 1000, 30000}).Draw(t, "ereach")
+				theirs.ReachMS = rapid.SampledFrom([]int64{0, 1000, 30000, 1200, 1800, 250, 1001}).Draw(t, "ereach")
 			case 4:
-				theirs.RetransMS = rapid.SampledFrom([]int64{0, 1000, 5000}).Draw(t, "eretrans")
+				theirs.RetransMS = rapid.SampledFrom([]int64{0, 1000, 5000, 1001, 1999, 500, 1}).Draw(t, "eretrans")
 			case 5:
 				if len(theirs.Opts) > 0 {
 					j := rapid.IntRange(0, len(theirs.Opts)-1).Draw(t, "eopt")
@@ -581,7 +582,7 @@ func c12Aspects(yield func(c12Case) bool) {
 		func(r *vRA, c int) { r.Hop = []uint8{0, 64, 255}[c] },
 		func(r *vRA, c int) { r.M = c == 1 },
 		func(r *vRA, c int) { r.O = c == 2 },
-		func(r *vRA, c int) { r.ReachMS = []int64{0, 1000, 30000}[c] },
+		func(r *vRA, c int) { r.ReachMS = []int64{0, 1200, 1800}[c] }, // x and y within the same second: the unit is the millisecond
 		func(r *vRA, c int) { r.RetransMS = []int64{0, 1000, 5000}[c] },
 		func(r *vRA, c int) {
 			if c > 0 {
